@@ -120,11 +120,19 @@ class Bounds:
         self.hi[e] = min(self.hi.get(e, v), v)
 
 
+LENOF = [None]
+
+
 def irange(e, B, tyof, env=None, depth=0):
     """(lo, hi) of expression e (normalised) or None."""
     if depth > 30:
         return None
     k = e[0]
+    if (k == "call" and e[1].endswith("::len") and len(e[2]) == 1) or k == "len":
+        if LENOF[0] is not None:
+            v = LENOF[0](e[2][0] if k == "call" else e[1], env)
+            if v is not None:
+                return (v, v)
     if k == "const":
         return (e[1], e[1])
     if k in ("cparam", "cpath"):
@@ -335,10 +343,38 @@ def gated_len(B, x, env):
     return None, None
 
 
+def cond_truth(e, B, tyof, env):
+    """Truth value of a comparison when determined by constants/intervals, else None."""
+    if e[0] != "bin" or e[1] not in ("Eq", "Ne", "Lt", "Le"):
+        return None
+    a, b2 = irange(e[2], B, tyof, env), irange(e[3], B, tyof, env)
+    if a is None or b2 is None:
+        return None
+    op = e[1]
+    if op in ("Eq", "Ne"):
+        if a[0] == a[1] == b2[0] == b2[1]:
+            return op == "Eq"
+        if a[1] < b2[0] or b2[1] < a[0]:
+            return op == "Ne"
+        return None
+    if op == "Lt":
+        if a[1] < b2[0]:
+            return True
+        if a[0] >= b2[1]:
+            return False
+    if op == "Le":
+        if a[1] <= b2[0]:
+            return True
+        if a[0] > b2[1]:
+            return False
+    return None
+
+
 def one(F, S, b, p, s, envs):
     t = s.term
     B = Bounds(S, p, s.bb)
     tyof = tyof_factory(S, b)
+    LENOF[0] = lambda x, env: _slen(F, b, x, B, env, tyof)
     env_list = [e for _, e in envs] if envs else [None]
     generic_consts = [g["n"] for g in b.d.get("generics", []) if g["k"] == "const"]
     if any(g not in common_names() for g in generic_consts):
@@ -497,17 +533,46 @@ def one(F, S, b, p, s, envs):
         if name == "select_nth_unstable":
             return None
         return None
+    if s.kind == "panic":
+        # the path to an explicit panic is infeasible if one of its conditions is decided the other way
+        # by constants for every variant
+        for (cbb, d, taken, vals) in p.conds:
+            e = n(d)
+            truth = (taken == "otherwise") if vals == [0] else (bool(taken) if taken != "otherwise" else None)
+            if truth is None:
+                continue
+            vs = [cond_truth(e, B0(), tyof, env) for env in env_list]
+            if all(v is not None and v != truth for v in vs):
+                return "infeasible-by-constants"
+        return None
     if s.kind == "unwrap":
         arg = a[0]
         # try_into of an exactly sized window / chunk
         if arg[0] == "call" and arg[1].endswith("TryInto<U>>::try_into"):
             src = arg[2][0]
             want = try_into_target_len(F, b, bb)
-            got = static_len(F, b, src, B, envs, tyof)
-            if want is not None and got is not None and want == got:
-                return "exact-size-conversion"
+            if want is not None:
+                ok_all = True
+                for env in env_list:
+                    w = want[1] if want[0] == "val" else (env.get(want[1]) if env else None)
+                    g = _slen(F, b, src, B, env, tyof)
+                    if w is None or g is None or w != g:
+                        ok_all = False
+                if ok_all:
+                    return "exact-size-conversion"
         return None
     return None
+
+
+class B0:
+    """No path facts (used when a condition must be decided by constants alone)."""
+    lo = {}
+    hi = {}
+    eq = {}
+    rel = []
+
+    def __call__(self):
+        return self
 
 
 def common_names():
@@ -663,7 +728,11 @@ def _slen(F, b, e, B, env, tyof):
         calls = find_all(e, lambda x: x[0] == "call" and x[1].endswith("::next"))
         return None
     if e[0] == "param":
-        return array_len_of(F, b, e, env)
+        v = array_len_of(F, b, e, env)
+        if v is None:
+            ex, lo = gated_len(B, e, env)
+            v = ex
+        return v
     return None
 
 
